@@ -66,21 +66,41 @@ class Form:
         return f
 
 
-def linear_forms(v, f, ps, fresh_outputs):
-    """interpret the LWE linear calls of a gate body: temp name -> Form.  fresh_outputs: temps written by a bootstrap
-    (abstracted as an exact +-MU operand named after the temp)."""
-    forms = {}
-    log = []
+def gate_flow(ps, ins):
+    """forward interpretation of the LWE calls of a gate body, in execution order (static helpers are inlined, a temporary may
+    be reused): every temporary holds a Form over the gate's input samples and over the outputs of the bootstraps met so far
+    (operand ("boot", k): exactly +-mu_k, the sign decided by the form that was bootstrapped).
+    -> (forms at the end, bootstraps [{p, form, mu, dst, opd}], key switches [{p, form, dst}]) or (None, reason, None)"""
+    forms, boots, kss = {}, [], []
+
+    def form_of(t):
+        if t in ins:
+            fm = Form()
+            fm.defined = True
+            fm.coef[t] = 1
+            return fm
+        return forms.get(t)
+
+    def add_into(dst, src, coef):
+        dst.k += coef * src.k
+        for o, c in src.coef.items():
+            dst.coef[o] = dst.coef.get(o, 0) + coef * c
+            if dst.coef[o] == 0:
+                del dst.coef[o]
     for p in ps:
         if p["kind"] != "call" or p["eff"].get("noreturn"):
             continue
         n, a = p["name"], p["args"]
+        known = n in ("lweNoiselessTrivial", "lweAddTo", "lweSubTo", "lweAddMulTo", "lweSubMulTo", "lweCopy", "lweNegate", "lweClear", "lweKeySwitch") \
+            or n.startswith("tfhe_bootstrap")
+        if known and (p["guards"] or p["loops"]):
+            return None, "%s at line %s is under a condition or in a loop" % (n, p["line"]), None
         if n == "lweNoiselessTrivial":
             k = torus_const(a[1])
             fm = Form()
             fm.defined = True
             if k is None:
-                return None, "constant %s at line %s is not a literal torus value" % (sym.show(a[1]), p["line"])
+                return None, "constant %s at line %s is not a literal torus value" % (sym.show(a[1]), p["line"]), None
             fm.k = k
             forms[a[0]] = fm
         elif n in ("lweAddTo", "lweSubTo", "lweAddMulTo", "lweSubMulTo"):
@@ -90,22 +110,118 @@ def linear_forms(v, f, ps, fresh_outputs):
             else:
                 c = sym.const_value(a[1])
                 if c is None:
-                    return None, "non-literal multiplier at line %s" % p["line"]
+                    return None, "non-literal multiplier at line %s" % p["line"], None
                 coef, src = (c if n == "lweAddMulTo" else -c), a[2]
-            if dst not in forms:
-                return None, "%s applied to an undefined temporary at line %s" % (n, p["line"])
-            forms[dst].coef[src] = forms[dst].coef.get(src, 0) + coef
+            sf = form_of(src)
+            if dst not in forms or sf is None:
+                return None, "%s applied to an undefined temporary at line %s" % (n, p["line"]), None
+            add_into(forms[dst], sf.copy(), coef)
         elif n in ("lweCopy", "lweNegate"):
+            sf = form_of(a[1])
+            if sf is None:
+                return None, "%s reads an undefined temporary at line %s" % (n, p["line"]), None
             fm = Form()
             fm.defined = True
-            fm.coef[a[1]] = 1 if n == "lweCopy" else -1
+            add_into(fm, sf, 1 if n == "lweCopy" else -1)
             forms[a[0]] = fm
         elif n == "lweClear":
             fm = Form()
             fm.defined = True
             forms[a[0]] = fm
-        log.append(n)
-    return forms, ""
+        elif n.startswith("tfhe_bootstrap"):
+            sf = form_of(a[3])
+            opd = ("boot", len(boots))
+            boots.append({"p": p, "form": None if sf is None else sf.copy(), "mu": torus_const(a[2]), "dst": a[0], "opd": opd})
+            fm = Form()
+            fm.defined = True
+            fm.coef[opd] = 1
+            forms[a[0]] = fm
+        elif n == "lweKeySwitch":
+            sf = form_of(a[2])
+            kss.append({"p": p, "form": None if sf is None else sf.copy(), "dst": a[0]})
+            fm = Form()
+            fm.defined = True
+            fm.coef[("ks", len(kss) - 1)] = 1
+            forms[a[0]] = fm
+    return forms, boots, kss
+
+
+def gate_encoding(chk, v, vn, rule):
+    """bootsSymEncrypt / bootsSymDecrypt: bit <-> +-1/8 by the sign of the phase, decided by evaluation (shared with C03.R4)"""
+    be = v.fn("bootsSymEncrypt")
+    bps, _ = summ.pieces(v, be, hooks=NOINLINE)
+    enc = [p for p in bps if p["kind"] == "call" and p["name"] == "lweSymEncrypt"]
+    msg = sym.sym(be.params[1]["n"])
+    eighth = ("call", "modSwitchToTorus32", (I(1), I(8)))
+    # the message argument is evaluated at message = 0 and at several non-zero values (tables of constants are read through)
+    ok, why = len(enc) == 1, "%d calls of lweSymEncrypt" % len(enc)
+    if ok and enc[0]["args"][3] != P(be.params[2]["n"], "lwe_key"):
+        ok, why = False, "encrypted under %s" % sym.show(enc[0]["args"][3])
+    if ok:
+        load = summ.table_loader(bps)
+        for m in (0, 1, 2, -1, 255):
+            val = sym.fold(sym.subst(enc[0]["args"][1], {msg: I(m)}), load)
+            q = torus_const(val)
+            if q is None:
+                chk.broken("bootsSymEncrypt: the encoded message %s is not a torus constant at message = %d" % (sym.show(val)[:120], m))
+            if q != ENC[1 if m else 0]:
+                ok, why = False, "message = %d is encoded as %s, expected %s" % (m, q, ENC[1 if m else 0])
+                break
+    chk.require(ok, rule, "bootsSymEncrypt encodes 1 as +1/8 and 0 as -1/8", where=be.where, ok="message ? +1/8 : -1/8 (evaluated at 0, 1, 2, -1, 255)",
+                bad=[why] + [sym.show(c["args"][1]) for c in enc], variant=vn)
+    bd = v.fn("bootsSymDecrypt")
+    dps, _ = summ.pieces(v, bd, hooks=NOINLINE)
+    r = [p for p in dps if p["kind"] == "return"]
+    s_, k_ = [p["n"] for p in bd.params]
+    ph = ("call", "lwePhase", (sym.sym(s_), P(k_, "lwe_key")))
+    # the returned value is a function of the phase through comparisons with literals only: it is evaluated at every
+    # breakpoint c, c-1, c+1 and at the ends of the Torus32 range, and must be 1 exactly for a positive phase
+    cuts, other = set(), []
+
+    def scan(t, under=None):
+        if t == ph:
+            if under is None:
+                other.append(t)
+            return
+        if not isinstance(t, tuple) or not t:
+            return
+        if isinstance(t[0], str) and t[0] == "op" and t[1] in ("<", "<=", ">", ">=", "==", "!=") and ph in (t[2], t[3]):
+            o = t[3] if t[2] == ph else t[2]
+            if o[0] == "int":
+                cuts.add(o[1])
+                return
+        if isinstance(t[0], str) and t[0] == "poly":
+            for m_, _c in t[1]:
+                for x in m_:
+                    scan(x)
+            return
+        for x in t[1:] if isinstance(t[0], str) else t:
+            if isinstance(x, tuple):
+                scan(x)
+    for p in r:
+        for g_ in p["guards"]:
+            scan(g_)
+        scan(p["val"])
+    if other or not r:
+        chk.broken("bootsSymDecrypt: the result uses the phase outside comparisons with literals: %s" % [sym.show(p["val"])[:80] for p in r])
+    pts = sorted({c + d for c in cuts for d in (-1, 0, 1)} | {-2 ** 31, 2 ** 31 - 1, 0, 1, -1})
+    ok, why = True, ""
+    from sa.secretflow import eval_term
+    for x in pts:
+        outs = []
+        for p in r:
+            gs = [eval_term(g_, {ph: x}) for g_ in p["guards"]]
+            if None in gs:
+                chk.broken("bootsSymDecrypt: guard not evaluable at phase %d" % x)
+            if all(gs):
+                outs.append(eval_term(p["val"], {ph: x}))
+        if len(outs) != 1 or outs[0] is None:
+            chk.broken("bootsSymDecrypt: %d return values at phase %d" % (len(outs), x))
+        if outs[0] != (1 if x > 0 else 0):
+            ok, why = False, "a phase of %d/2^32 decodes to %d" % (x, outs[0])
+            break
+    chk.require(ok, rule, "bootsSymDecrypt decodes by the sign of the phase", where=bd.where, ok="phase > 0 ? 1 : 0 (evaluated at %d phases)" % len(pts),
+                bad=[why] + [summ.show_piece(p)[:100] for p in r], variant=vn)
 
 
 def run(chk):
@@ -137,17 +253,23 @@ def run(chk):
             if g == "CONSTANT":
                 tr = [c for c in cs if c["name"] == "lweNoiselessTrivial"]
                 val = sym.sym(names[1])
-                eighth = ("call", "modSwitchToTorus32", (I(1), I(8)))
-                ok = len(tr) == 1 and tr[0]["args"][0] == res and tr[0]["args"][1] in (
-                    ("cond", sym.binop("!=", val, ZERO), eighth, sym.neg(eighth)), ("cond", val, eighth, sym.neg(eighth)))
+                ok = len(tr) == 1 and tr[0]["args"][0] == res and not tr[0]["guards"] and not tr[0]["loops"]
+                if ok:
+                    load = summ.table_loader(ps)
+                    for m in (0, 1, 2, -1, 255):
+                        q = torus_const(sym.fold(sym.subst(tr[0]["args"][1], {val: I(m)}), load))
+                        if q is None:
+                            chk.broken("bootsCONSTANT: the message %s is not a torus constant at value = %d" % (sym.show(tr[0]["args"][1])[:100], m))
+                        ok = ok and q == ENC[1 if m else 0]
                 chk.require(ok, "R1", "bootsCONSTANT returns the trivial sample (0, value ? +1/8 : -1/8)", where=f.where,
                             ok="lweNoiselessTrivial(result, value ? MU : -MU)", bad=[summ.show_piece(c)[:120] for c in cs], variant=vn)
                 continue
-            forms, err = linear_forms(v, f, ps, [])
+            forms, flow_boots, flow_kss = gate_flow(ps, ins)
             if forms is None:
-                chk.broken("%s: %s" % (f.name, err))
-            boots = [c for c in cs if c["name"].startswith("tfhe_bootstrap")]
-            kss = [c for c in cs if c["name"] == "lweKeySwitch"]
+                chk.broken("%s: %s" % (f.name, flow_boots))
+            boots = [b_["p"] for b_ in flow_boots]
+            kss = [k_["p"] for k_ in flow_kss]
+            after = lambda c0: cs[next(i_ for i_, c_ in enumerate(cs) if c_ is c0) + 1:]
             table = TRUTH[g]
             nin = len(ins)
             rows = list(product((0, 1), repeat=nin))
@@ -187,12 +309,11 @@ def run(chk):
                     chk.refuted("R3", "boots%s bootstraps its linear form into the result" % g, where=where, detail="; ".join(problems), variant=vn)
                     continue
                 b = boots[0]
-                temp = b["args"][3]
-                mu = torus_const(b["args"][2])
-                fm = forms.get(temp)
+                mu = flow_boots[0]["mu"]
+                fm = flow_boots[0]["form"]
                 ok3 = b["args"][0] == res and fm is not None and b["args"][1] == sym.arrow(P(bk, "bkFFT"), None) if False else (
                     b["args"][0] == res and fm is not None and b["args"][1] == P(bk, "bkFFT"))
-                later = [c for c in cs if c["line"] > b["line"] and any(a == res for a in c["args"] if a is not None)]
+                later = [c for c in after(b) if any(a == res for a in c["args"] if a is not None)]
                 chk.require(ok3 and not later and mu is not None and mu > 0, "R3", "boots%s bootstraps the temporary holding its form into result with mu > 0, and does not touch result afterwards" % g,
                             where=where, ok="tfhe_bootstrap_FFT(result, bk->bkFFT, %s, temp)" % mu,
                             bad="bootstrap args %s, mu = %s, later writers %s" % ([sym.show(a)[:30] for a in b["args"]], mu, [c["name"] for c in later]), variant=vn)
@@ -215,24 +336,19 @@ def run(chk):
                     chk.refuted("R3", "bootsMUX = two bootstraps without key switch, one key switch", where=where,
                                 detail="bootstraps %s, key switches %d" % ([c["name"] for c in boots], len(kss)), variant=vn)
                     continue
-                # the temporary is reused: evaluate the form as it is at each bootstrap by replaying the calls up to it
+                # temporaries may be reused: gate_flow gives the form each bootstrap was applied to at that moment
                 inter = {}
                 okall = True
-                sub_tables = []
-                for b in wo:
-                    upto = [p for p in ps if p["kind"] == "call" and p["line"] <= b["line"]]
-                    fms, _ = linear_forms(v, f, upto, [])
-                    fm = fms.get(b["args"][3]) if fms else None
-                    mu = torus_const(b["args"][2])
+                for b_ in flow_boots:
+                    fm, mu = b_["form"], b_["mu"]
                     if fm is None or mu is None or mu <= 0 or set(fm.coef) - set(ins):
                         okall = False
                         break
-                    inter[b["args"][0]] = (fm, mu)
+                    inter[b_["opd"]] = (fm, mu)
                 ksw = kss[0]
-                fms, _ = linear_forms(v, f, [p for p in ps if p["kind"] == "call" and p["line"] <= ksw["line"]], [])
-                ffm = fms.get(ksw["args"][2]) if fms else None
+                ffm = flow_kss[0]["form"]
                 ok3 = okall and ffm is not None and ksw["args"][0] == res and ksw["args"][1] == sym.arrow(P(bk, "bkFFT"), "ks") and \
-                    set(ffm.coef) == set(inter) and not [c for c in cs if c["line"] > ksw["line"] and res in [a for a in c["args"] if a is not None]]
+                    set(ffm.coef) == set(inter) and not [c for c in after(ksw) if res in [a for a in c["args"] if a is not None]]
                 chk.require(ok3, "R3", "bootsMUX: result is written only by the final key switch of a private combination of the two bootstrapped values",
                             where=where, ok="u1, u2 = woKS bootstraps; lweKeySwitch(result, bk->bkFFT->ks, MuxConst + u1 + u2)",
                             bad="structure not recognised", variant=vn)
@@ -309,19 +425,4 @@ def run(chk):
                     bad="; ".join(sorted(set(once))[:3]) + " -- the value of the FIRST call is kept for every later call, whatever key or parameter set it is given",
                     variant=vn)
         # ---------------- R2 encode / decode
-        be = v.fn("bootsSymEncrypt")
-        bps, _ = summ.pieces(v, be, hooks=NOINLINE)
-        enc = [p for p in bps if p["kind"] == "call" and p["name"] == "lweSymEncrypt"]
-        msg = sym.sym(be.params[1]["n"])
-        eighth = ("call", "modSwitchToTorus32", (I(1), I(8)))
-        ok = len(enc) == 1 and enc[0]["args"][1] in (("cond", sym.binop("!=", msg, ZERO), eighth, sym.neg(eighth)), ("cond", msg, eighth, sym.neg(eighth)))
-        chk.require(ok, "R2", "bootsSymEncrypt encodes 1 as +1/8 and 0 as -1/8", where=be.where, ok="message ? +1/8 : -1/8",
-                    bad=[sym.show(c["args"][1]) for c in enc], variant=vn)
-        bd = v.fn("bootsSymDecrypt")
-        dps, _ = summ.pieces(v, bd, hooks=NOINLINE)
-        r = [p for p in dps if p["kind"] == "return"]
-        s_, k_ = [p["n"] for p in bd.params]
-        ph = ("call", "lwePhase", (sym.sym(s_), P(k_, "lwe_key")))
-        ok = len(r) == 1 and r[0]["val"] in (("cond", sym.binop(">", ph, ZERO), I(1), ZERO), sym.binop(">", ph, ZERO))
-        chk.require(ok, "R2", "bootsSymDecrypt decodes by the sign of the phase", where=bd.where, ok="phase > 0 ? 1 : 0",
-                    bad=sym.show(r[0]["val"]) if r else "no return", variant=vn)
+        gate_encoding(chk, v, vn, "R2")
